@@ -1,6 +1,6 @@
 --------------------------- MODULE Callbacks_Trace ---------------------------
 (* Trace validation for C34.  Item: [ev]; events
-   reg {all, den: <<addresses>>, out, raises}   unreg {k}   tg {dst, outgoing, called: <<callback numbers in call order>>, devices} *)
+   reg {all, den: <<addresses>>, out, raises}   unreg {k}   edit {k, den}   tg {dst, outgoing, fns: <<callables in call order>>, devices} *)
 EXTENDS Integers, Sequences, Json, IOUtils, TLC
 Traces == ndJsonDeserialize(IOEnv.TRACE_FILE)
 VARIABLES cbs, called, devices, tid, l
@@ -8,13 +8,15 @@ vars == <<cbs, called, devices, tid, l>>
 C == INSTANCE Callbacks
 Ev == Traces[tid].ev[l]
 B(x) == x = 1
+Fns(seq) == [k \in 1..Len(seq) |-> cbs[seq[k]].fn]         \* the callables invoked, in call order (cbs is unchanged by a dispatch)
 TInit == tid \in 1..Len(Traces) /\ l = 1 /\ C!Init
 Step ==
   /\ l <= Len(Traces[tid].ev) /\ l' = l + 1 /\ UNCHANGED tid
-  /\ \/ Ev.ev = "reg" /\ C!Register([all |-> B(Ev.all), den |-> {Ev.den[k] : k \in 1..Len(Ev.den)}, out |-> B(Ev.out), raises |-> B(Ev.raises)])
+  /\ \/ Ev.ev = "reg" /\ C!Register([all |-> B(Ev.all), den |-> {Ev.den[k] : k \in 1..Len(Ev.den)}, out |-> B(Ev.out), raises |-> B(Ev.raises), fn |-> Ev.fn])
+     \/ Ev.ev = "edit" /\ C!Edit(Ev.k, {Ev.den[k] : k \in 1..Len(Ev.den)})
      \/ Ev.ev = "unreg" /\ C!Unregister(Ev.k)
-     \/ Ev.ev = "tg" /\ Ev.sendfail = 0 /\ C!Process(Ev.dst, B(Ev.outgoing)) /\ called' = Ev.called /\ devices' = B(Ev.devices)
-     \/ Ev.ev = "tg" /\ Ev.sendfail = 1 /\ C!Dropped /\ called' = Ev.called /\ devices' = B(Ev.devices)
+     \/ Ev.ev = "tg" /\ Ev.sendfail = 0 /\ C!Process(Ev.dst, B(Ev.outgoing)) /\ Fns(called') = Ev.fns /\ devices' = B(Ev.devices)
+     \/ Ev.ev = "tg" /\ Ev.sendfail = 1 /\ C!Dropped /\ Ev.fns = <<>> /\ devices' = B(Ev.devices)
 TSpec == TInit /\ [][Step]_vars
 Mark == /\ TLCSet(2, [TLCGet(2) EXCEPT ![tid] = IF @ < l THEN l ELSE @])
         /\ (l = Len(Traces[tid].ev) + 1 => TLCSet(1, TLCGet(1) \cup {tid}))
